@@ -263,8 +263,22 @@ def key_copy():
         def sub_copy(ex, st, o, a):
             return [(st, E.VObj(KEY, 'copy-of-' + str(o.ref)))]
 
+        # the new key starts empty; what `key |= x` does to it is given by contract (PGPKey.__or__ has its own scenarios): an identity goes
+        # to the identities, a subkey to the subkeys, a signature to the key signatures - the obligations below read these collections,
+        # whichever way the function fills them
+        r.set('copy', '_uids', ex.new_list(st, []))
+        r.set('copy', '_signatures', ex.new_list(st, []))
+        r.set('copy', '_children', ex.new_list(st, []))
+
         def ior(ex, st, o, a):
-            st.ghost['attached'] = st.ghost.get('attached', ()) + ((o.ref, a[0]),)
+            x = a[0]
+            if o.ref == 'copy' and isinstance(x, E.VObj):
+                fld = '_uids' if x.cls == UID else '_signatures' if x.cls == SIG else '_children' if x.cls == KEY else None
+                if fld is None:
+                    return [(st, E.Raise('TypeError', 0))]
+                lst = st.heap[('copy', fld)]
+                st.heap[lst.cell] = st.heap[lst.cell] + (x,)
+            st.ghost['order'] = st.ghost.get('order', ()) + (getattr(x, 'ref', None),)
             return [(st, o)]
         r.hook(KEY, '__or__', scn.method_hook(ior))
         # copies of subkeys are PGPKey copies too: give them by contract (same function, one level down)
@@ -282,14 +296,17 @@ def key_copy():
             r.oblige(s, 'a-new-key/p%d' % pi, z3.BoolVal(isinstance(v, E.VObj) and v.ref == 'copy'))
             kp = s.heap.get(('copy', '_key'))
             r.oblige(s, 'holding-a-copy-of-the-key-packet/p%d' % pi, z3.BoolVal(isinstance(kp, E.VObj) and kp.ref == 'copy-of-pkt'))
-            att = [x.ref for t, x in s.ghost.get('attached', ()) if t == 'copy' and isinstance(x, E.VObj)]
-            fixed = ['copy-of-uid0', 'copy-of-attr0', 'copy-of-sub0', 'copy-of-sub1']
-            r.oblige(s, 'copies-of-every-identity-then-every-subkey,in-order/p%d' % pi, z3.BoolVal(att[:4] == fixed))
-            rest = att[4:]
-            r.oblige(s, 'then-copies-of-the-key-signatures-in-order/p%d' % pi, z3.BoolVal(rest == [x for x in ['copy-of-s0', 'copy-of-s1', 'copy-of-s2'] if x in rest]))
+            got = {}
+            for fld in ('_uids', '_children', '_signatures'):
+                lst = s.heap.get(('copy', fld))
+                got[fld] = [getattr(x, 'ref', None) for x in ex.items(lst, s)] if isinstance(lst, E.VList) else None
+            r.oblige(s, 'its-identities-are-copies-of-every-identity,in-order/p%d' % pi, z3.BoolVal(got['_uids'] == ['copy-of-uid0', 'copy-of-attr0']))
+            r.oblige(s, 'its-subkeys-are-copies-of-every-subkey,in-order/p%d' % pi, z3.BoolVal(got['_children'] == ['copy-of-sub0', 'copy-of-sub1']))
+            rest = got['_signatures'] or []
+            r.oblige(s, 'its-key-signatures-are-copies,each-once,in-order/p%d' % pi,
+                     z3.BoolVal(got['_signatures'] is not None and rest == [x for x in ['copy-of-s0', 'copy-of-s1', 'copy-of-s2'] if x in rest]))
             for x in sigs:
                 r.oblige(s, '%s-copied-iff-it-is-not-an-embedded-signature/p%d' % (x.ref, pi), z3.BoolVal('copy-of-' + x.ref in rest) == z3.Not(emb[x.ref]))
-            r.oblige(s, 'nothing-of-the-original-is-shared/p%d' % pi, z3.BoolVal(all(a.startswith('copy-of-') for a in att)))
         return r.result()
     return Scenario(label, KEY + '.__copy__', gen, props=('C14', 'C15'))
 
